@@ -120,6 +120,11 @@ func GenValidCluster(t *rapid.T, label, name string, o ObjOpts) *proxyv1alpha1.U
 	case 1:
 		c.Annotations = map[string]string{"other": "x"}
 	default:
+		if rapid.IntRange(0, 2).Draw(t, label+".commonGates") == 0 {
+			// one of a few common values, so that the same annotation comes back verbatim in later versions of a history
+			c.Annotations = map[string]string{FeatureGateAnnotation: rapid.SampledFrom([]string{"DenyAllRequests=true", "Tracing=true,DenyAllRequests=false", "CloseConnectionWhenIdle=true"}).Draw(t, label+".gates")}
+			break
+		}
 		var gates []string
 		names := []string{"DenyAllRequests", "Tracing", "CloseConnectionWhenIdle"}
 		if !o.NoGlobal {
